@@ -398,6 +398,10 @@ func (e *Engine) concretize(s *State, t *Term, why string) uint64 {
 	max := e.cfg.ConcMax
 	var vals []*Term
 	var excl []*Term
+	if fast, ok := e.concretizeFast(s, t, max); ok {
+		vals = fast
+		goto have
+	}
 	for len(vals) <= max {
 		r, m := e.sat(s, excl...)
 		if r == Unsat {
@@ -416,6 +420,7 @@ func (e *Engine) concretize(s *State, t *Term, why string) uint64 {
 		vals = append(vals, v)
 		excl = append(excl, Not(Eq(t, v)))
 	}
+have:
 	if len(vals) > max {
 		e.addInconclusive(s, fmt.Sprintf("concretize: more than %d values (%s) at %s", max, why, e.pos(e.curInstr(s))))
 		panic(abortPath{"concretize"})
@@ -1008,4 +1013,66 @@ func (e *Engine) loopControlling(fi *fnInfo, b *ssa.BasicBlock) bool {
 	}
 	fi.loopCtl[b] = res
 	return res
+}
+
+// concretizeFast: t depends on a single narrow variable that occurs in the path condition only in
+// conjuncts over that variable alone: its feasible values are found by evaluation, without the solver.
+func (e *Engine) concretizeFast(s *State, t *Term, max int) ([]*Term, bool) {
+	vs := varsOfTerm(t)
+	if len(vs) != 1 || vs[0] < 0 {
+		return nil, false
+	}
+	v := TF.all[vs[0]]
+	if v.S.K != KBV || v.S.W > 8 {
+		return nil, false
+	}
+	var own []*Term
+	for _, c := range s.pc {
+		cv := varsOfTerm(c)
+		has := false
+		for _, x := range cv {
+			if x == v.ID {
+				has = true
+			}
+		}
+		if !has {
+			continue
+		}
+		if len(cv) != 1 {
+			return nil, false
+		}
+		own = append(own, c)
+	}
+	seen := map[*Term]bool{}
+	var out []*Term
+	for val := uint64(0); val < (uint64(1) << uint(v.S.W)); val++ {
+		m := Model{v: BVConst(v.S.W, val)}
+		memo := map[*Term]*Term{}
+		ok := true
+		for _, c := range own {
+			r := m.Eval(c, memo)
+			if r == nil {
+				return nil, false
+			}
+			if !r.IsTrue() {
+				ok = false
+				break
+			}
+		}
+		if !ok {
+			continue
+		}
+		tv := m.Eval(t, memo)
+		if tv == nil {
+			return nil, false
+		}
+		if !seen[tv] {
+			seen[tv] = true
+			out = append(out, tv)
+			if len(out) > max {
+				return out, true
+			}
+		}
+	}
+	return out, true
 }
